@@ -118,6 +118,19 @@ def job(args):
                 except (IndexError, KeyError, TypeError, AssertionError, AttributeError) as e:
                     out['src_kt'] = ('Crash', repr(e))
                     m.sources[:] = [s for s in m.sources if s is not s1]
+                # --- what the solver sees of it: the excitation vector of this source alone against that of a source named by the
+                # absolute number of the same pulse ("both forms give identical results")
+                if isinstance(out['src_kt'], int):
+                    keep = list(m.sources)
+                    m.sources[:] = [s1]
+                    m.compute_rhs()
+                    out['rhs_kt'] = [complex(x) for x in m.rhs]
+                    m.sources[:] = []
+                    s3 = M.Excitation(1 + 0j)
+                    m.register_source(s3, out['src_kt'])
+                    m.compute_rhs()
+                    out['rhs_abs'] = [complex(x) for x in m.rhs]
+                    m.sources[:] = keep
                 # --- absolute addressing -----------------------------------------------
                 s2 = M.Excitation(1 + 0j)
                 try:
@@ -291,6 +304,9 @@ def job(args):
                 want.extend(n + 1 for n in o[key])
         gotn = [int(ln.split(':')[1].split(',')[0]) for ln in ll]
         goals.append(('load listing has one line per loaded pulse, naming it', z3.BoolVal(gotn == want)))
+        if 'rhs_kt' in o:
+            same = len(o['rhs_kt']) == len(o['rhs_abs']) and all(abs(x - y) <= 1e-12 * (1 + abs(y)) for x, y in zip(o['rhs_kt'], o['rhs_abs']))
+            goals.append(('a source named as (k,t) excites the system exactly as the source named by the absolute number of that pulse', z3.BoolVal(bool(same))))
         # (6) the matrix diagonal carries each attachment exactly once with the weight of that pulse
         exp = [0j] * N
         for zl, plist in o['attached']:
@@ -371,7 +387,17 @@ def replay(mm, name, c):
                 s = mm.Excitation(1 + 0j)
                 m.register_source(s, k - 1, t)
                 got = s.idx + 1
+                m.compute_rhs()
+                r1 = np.array(m.rhs, dtype=complex)
                 m.sources.remove(s)
+                s3 = mm.Excitation(1 + 0j)
+                m.register_source(s3, s.idx)
+                m.compute_rhs()
+                r2 = np.array(m.rhs, dtype=complex)
+                m.sources.remove(s3)
+                if got == want and np.abs(r1 - r2).max() > 1e-12 * (1 + np.abs(r2).max()):
+                    return ('C17:per-object:source-effect', '%s tags %s: a source on pulse %d of object %d (absolute %d) gives the excitation vector entry %r, '
+                            'the same source named by the absolute number %r' % (name, c['tags'], k, t, got, complex(r1[s.idx]), complex(r2[s.idx])), rd)
             else:
                 l = mm.Impedance_Load(5 + 1j)
                 m.register_load(l, k - 1, t)
